@@ -26,6 +26,10 @@
                                 the library's `Exception`.
   * `write_resumed_exact`     — HISTORY: a write of which the first k bytes were stored before it failed,
                                 resumed from offset + k, leaves exactly what one complete write stores.
+  * `write_exact_any_chunk`, `write_count_mismatch_raises_any_chunk`, `write_short_ack_raises_any_chunk`,
+    `write_resumed_exact_any_chunk` — the same four for EVERY chunk size `write_length` = 1..255 the caller
+                                may assign (the harness assigns it on the real object); `write_chunk_sizes`,
+                                `write_length_zero_sends_nothing`.
   * `faultless_plan_is_reference_device` — the fault-injecting device of the history runs is the reference
                                 device while its plan is empty.
   * `multirecord_as_shipped_misaddresses` — COUNTER-EXAMPLE for the pinned source:
@@ -167,6 +171,105 @@ theorem write_resumed_exact (d : FruDev) (id off k : Nat) (c data : List Nat) (t
   have hs := splice_splice c (data.take k) (data.drop k) off (by omega)
   rw [hlt, List.take_append_drop] at hs
   simpa [hs] using h
+
+/-! ### every write chunk size: `Fru.write_length` is a public attribute the caller may assign
+
+The four statements above are for the value the source assigns in `Fru.__init__` (`fruCfg.writeLen`, 16
+today).  The property quantifies over ALL write chunk sizes: here they are for every `wl` in 1..255 (the
+largest count a Write FRU Data acknowledge can carry), the model running with `write_length = wl`; the harness
+assigns the same `wl` to the real object. -/
+
+/-- the transfer constants after the caller assigned `ipmi.write_length = wl` -/
+def withWriteLen (wl : Nat) : Cfg := { fruCfg with writeLen := wl }
+
+theorem withWriteLen_default : withWriteLen fruCfg.writeLen = fruCfg := rfl
+
+theorem write_exact_any_chunk (wl : Nat) (h1 : 1 ≤ wl) (h255 : wl ≤ 255)
+    (d : FruDev) (id off : Nat) (c data : List Nat) (tr : List Xchg) (hid : id < 256)
+    (hg : d.get id = some c) (hfit : off + data.length ≤ c.length) (h64 : c.length ≤ 65535)
+    (hw : wl ≤ d.wmax) :
+    let r := writeFruData (withWriteLen wl) respond ⟨d, tr⟩ data off id
+    r.out = .ok () ∧ r.w.dev.get id = some (splice c off data) ∧
+      ∀ j, j ≠ id → r.w.dev.get j = d.get j := by
+  have hn : wl ≠ 0 := by omega
+  have hflat := chunks_flatten wl h1 data
+  have := writeChunks_exact id hid (chunks wl data) ⟨d, tr⟩ c off hg
+    (fun ch hch => by
+      have := chunks_len wl data ch hch
+      exact ⟨by simp only; omega, by omega⟩)
+    (by rw [hflat]; exact hfit) h64
+  rw [hflat] at this
+  simpa [writeFruData, withWriteLen, hn] using this
+
+/-- every chunk on the wire carries at most `wl` data bytes, all but the last exactly `wl`, and together
+they are `data` in order (so `wl` really is the chunk size, not merely an upper bound) -/
+theorem write_chunk_sizes (wl : Nat) (h1 : 1 ≤ wl) (data : List Nat) :
+    (chunks wl data).flatten = data ∧ (∀ ch ∈ chunks wl data, ch.length ≤ wl) :=
+  ⟨chunks_flatten wl h1 data, chunks_len wl data⟩
+
+theorem write_count_mismatch_raises_any_chunk {σ} (wl : Nat) (send : Send σ) (dev : σ) (data : List Nat)
+    (off id : Nat) (h : (writeFruData (withWriteLen wl) send ⟨dev, []⟩ data off id).out = .ok ()) :
+    ∀ x ∈ (writeFruData (withWriteLen wl) send ⟨dev, []⟩ data off id).w.trace,
+      decodeWriteRsp x.rsp = .ok (x.req.payload.length - 3) := by
+  unfold writeFruData at h ⊢
+  split at h
+  · simp at h
+  · rename_i hn
+    simp only [hn, if_false]
+    exact writeChunks_acked send id _ _ _ (by intro x hx; cases hx) h
+
+theorem write_short_ack_raises_any_chunk (wl : Nat) (h1 : 1 ≤ wl)
+    (d : FruDev) (id off : Nat) (c data : List Nat) (hid : id < 256)
+    (hg : d.get id = some c) (hne : data ≠ []) (hfit : off + data.length ≤ c.length)
+    (h64 : c.length ≤ 65535) (hshort : d.wmax < min wl data.length) :
+    (writeFruData (withWriteLen wl) respond ⟨d, []⟩ data off id).out = .pyError "Exception" := by
+  have hn : wl ≠ 0 := by omega
+  have hpos : 0 < data.length := List.length_pos_iff.mpr hne
+  obtain ⟨k, hk⟩ : ∃ k, data.length = k + 1 := ⟨data.length - 1, by omega⟩
+  have hack := respond_write_ack d id off (data.take wl) c hid (by omega) hg (by omega)
+  have hmin : min (c.length - off) (min d.wmax (min wl data.length)) % 256
+      ≠ min wl data.length := by
+    have := Nat.mod_le (min (c.length - off) (min d.wmax (min wl data.length))) 256
+    omega
+  simp only [writeFruData, withWriteLen, hn, if_false, chunks, hk, chunksAux, hne, writeChunks, xchg, hack,
+    decodeWrite_ok]
+  simp [hmin]
+
+theorem write_resumed_exact_any_chunk (wl : Nat) (h1 : 1 ≤ wl) (h255 : wl ≤ 255)
+    (d : FruDev) (id off k : Nat) (c data : List Nat) (tr : List Xchg)
+    (hid : id < 256) (hk : k ≤ data.length)
+    (hg : d.get id = some (splice c off (data.take k)))
+    (hfit : off + data.length ≤ c.length) (h64 : c.length ≤ 65535) (hw : wl ≤ d.wmax) :
+    let r := writeFruData (withWriteLen wl) respond ⟨d, tr⟩ (data.drop k) (off + k) id
+    r.out = .ok () ∧ r.w.dev.get id = some (splice c off data) ∧
+      ∀ j, j ≠ id → r.w.dev.get j = d.get j := by
+  have hlt : (data.take k).length = k := by simp; omega
+  have hld : (data.drop k).length = data.length - k := by simp
+  have hlen := splice_length c off (data.take k) (by omega)
+  have h := write_exact_any_chunk wl h1 h255 d id (off + k) (splice c off (data.take k)) (data.drop k) tr hid hg
+    (by omega) (by omega) hw
+  have hs := splice_splice c (data.take k) (data.drop k) off (by omega)
+  rw [hlt, List.take_append_drop] at hs
+  simpa [hs] using h
+
+/-- `write_length = 0` is refused before any request is sent (Python: `range()` with step 0). -/
+theorem write_length_zero_sends_nothing {σ} (send : Send σ) (w : World σ) (data : List Nat) (off id : Nat) :
+    (writeFruData (withWriteLen 0) send w data off id).out = .pyError "ValueError" ∧
+    (writeFruData (withWriteLen 0) send w data off id).w = w := by
+  simp [writeFruData, withWriteLen]
+
+/-- 40 bytes with `write_length = 5` go out as eight requests of 3 + 5 bytes; with 17 as 17 + 17 + 6 -/
+example : ((writeFruData (withWriteLen 5) respond ⟨⟨[(3, List.replicate 60 0)], 32, 0xCA, false, 255⟩, []⟩
+    (List.replicate 40 9) 5 3).w.trace.map (·.req.payload.length)) = List.replicate 8 8 ∧
+    ((writeFruData (withWriteLen 17) respond ⟨⟨[(3, List.replicate 60 0)], 32, 0xCA, false, 255⟩, []⟩
+    (List.replicate 40 9) 5 3).w.trace.map (·.req.payload.length)) = [20, 20, 9] := by decide
+
+/-- an acknowledge LARGER than the chunk (request 1 of 5-byte chunks acknowledged with 6): the library raises,
+the bytes of both chunks are stored -/
+example : (writeFruData (withWriteLen 5) respondF ⟨⟨⟨[(3, List.replicate 60 0)], 32, 0xCA, false, 255⟩, 0, [(1, .ack 6)]⟩, []⟩
+    (List.replicate 40 9) 5 3).out = .pyError "Exception" ∧
+    ((writeFruData (withWriteLen 5) respondF ⟨⟨⟨[(3, List.replicate 60 0)], 32, 0xCA, false, 255⟩, 0, [(1, .ack 6)]⟩, []⟩
+    (List.replicate 40 9) 5 3).w.dev.dev.get 3) = some (splice (List.replicate 60 0) 5 (List.replicate 10 9)) := by decide
 
 /-- The device the history runs use (faults at chosen request indices) is the reference device as long as
 its fault plan is empty, so everything proved about `respond` holds for the steps without faults; the
